@@ -188,6 +188,10 @@ UNIT = Unit(
                     Inject(("after_let", "total_liqs"), """let ghost q = total_liqs as int;
                         proof { let accs = choose|accs: Seq<u128>| #[trigger] fold_decided(__clQ1, __cQ0@, 0u128, accs) && total_liqs == accs[__cQ0@.len() as int];
                             lemma_fold_sat(__cQ0@, vals, accs, n0); lemma_sat_sum_bounds(vals, n0); assert(vals[0] >= 1); assert(q == true_sum(vals, n0) && q >= 1); }"""),
+                    Inject(("after_let", "is_builtin"), """proof { broadcast use axiom_builtin_order, axiom_bytes_lt, axiom_denom_bytes_inj;
+                        assert(is_builtin == is_builtin_key(*pool, spec_tip(st0.network, st0.height, 180000))); assert(pool_state == st0.pools@[*pool]); }"""),
+                    Inject(("before", "return;"), "proof { assert(wd_refused(st0.pools@[*pool], q, is_builtin_key(*pool, spec_tip(st0.network, st0.height, 180000)))); }"),
+                    Inject(("before", "let (total_left, total_write) = pool_state.withdraw(total_liqs);"), "proof { assert(!wd_refused(st0.pools@[*pool], q, is_builtin_key(*pool, spec_tip(st0.network, st0.height, 180000)))); }"),
                     Inject(("after_stmt", "state.pools.insert(*pool, pool_state);"), """let ghost wl = total_left as int; let ghost wr = total_write as int; let ghost pools1 = state.pools@;
                         proof { assert(pool_withdrawn(st0.pools@[*pool], pools1[*pool], q, wl, wr)); assert(pools1.dom() =~= st0.pools@.dom());
                             assert(wds_settled(c0, c0, reqs0, 0, *pool, wl, wr, q, st0.height)); }"""),
@@ -277,14 +281,19 @@ UNIT = Unit(
                         proof { lemma_selected_withdrawals(s0, reqs); }"""),
                     Inject(("after_let", "pools"), """proof { assert(withdraw_reqs@ == reqs);
                         assert(done_set(pools@, 0) =~= ISet::<PoolKey>::empty());
-                        assert(wds_done(s0.pools@, c0, s0.height, reqs, done_set(pools@, 0), wl, wr, st.pools@, st.coins@.coins)); }"""),
-                    Inject("before_tail", """proof { let n = pools@.len() as int; let fin = mentioned_set(reqs);
-                        assert(done_set(pools@, n) =~= fin) by {
-                            assert forall|k2: PoolKey| done_set(pools@, n).contains(k2) <==> fin.contains(k2) by {
-                                if done_set(pools@, n).contains(k2) { let j = choose|j: int| 0 <= j < n && pools@[j] == k2; assert(pools@.contains(k2)); }
-                                if mentions(reqs, k2) { assert(pools@.contains(k2)); let j = choose|j: int| 0 <= j < pools@.len() && pools@[j] == k2; } } }
+                        assert(wdone_set(pools@, 0, reqs, s0.pools@, t902) =~= ISet::<PoolKey>::empty());
+                        assert(wds_done(s0.pools@, c0, s0.height, reqs, wdone_set(pools@, 0, reqs, s0.pools@, t902), wl, wr, st.pools@, st.coins@.coins)); }"""),
+                    Inject("before_tail", """proof { let n = pools@.len() as int; let fin = wd_settled_set(reqs, s0.pools@, t902);
+                        assert(wdone_set(pools@, n, reqs, s0.pools@, t902) =~= fin) by {
+                            assert forall|k2: PoolKey| wdone_set(pools@, n, reqs, s0.pools@, t902).contains(k2) <==> fin.contains(k2) by {
+                                if wdone_set(pools@, n, reqs, s0.pools@, t902).contains(k2) { let j = choose|j: int| 0 <= j < n && pools@[j] == k2; assert(pools@.contains(k2)); }
+                                if fin.contains(k2) { assert(mentions(reqs, k2)); assert(pools@.contains(k2)); let j = choose|j: int| 0 <= j < pools@.len() && pools@[j] == k2; } } }
                         assert(selected(s0.transactions@, reqs, withdraw_pred(s0)));
                         assert(wds_done(s0.pools@, c0, s0.height, reqs, fin, wl, wr, st.pools@, st.coins@.coins));
+                        assert forall|j: int| 0 <= j < reqs.len() implies fin.contains(swap_key(#[trigger] reqs[j])) || !c0.contains_key(cid(reqs[j], 1)) by {
+                            lemma_selected_from(s0, reqs, withdraw_pred(s0), swap_key(reqs[j]));
+                            assert(txs.contains_key(spec_txhash(reqs[j])) && txs[spec_txhash(reqs[j])] == reqs[j]); assert(reqs[j].outputs@.len() == 1); }
+                        lemma_wds_young(s0.pools@, c0, s0.height, reqs, fin, wl, wr, st.pools@, st.coins@.coins);
                         assert(ids_new(c0, st.coins@.coins)) by { assert forall|id: CoinID| #[trigger] st.coins@.coins.contains_key(id) implies c0.contains_key(id) || tx_id(id) by {
                             if !c0.contains_key(id) { assert(wd_new(reqs, fin, id)); let j = choose|j: int| 0 <= j < reqs.len() && fin.contains(swap_key(#[trigger] reqs[j])) && id == cid(reqs[j], 1); assert(id.txhash == spec_txhash(reqs[j])); } } }
                         assert forall|k2: PoolKey| #[trigger] st.pools@.contains_key(k2) implies
@@ -292,6 +301,7 @@ UNIT = Unit(
                                 assert(s0.pools@.contains_key(k2));
                                 if fin.contains(k2) { lemma_selected_from(s0, reqs, withdraw_pred(s0), k2); lemma_pool_wds_pre(txs, s0.pools@, c0, reqs, k2, t902);
                                     lemma_sat_sum_bounds(out_vals(pool_reqs(reqs, k2), 0), pool_reqs(reqs, k2).len() as int); lemma_wd_q_pos(reqs, k2);
+                                    assert(!wd_refused(s0.pools@[k2], wd_q(reqs, k2), is_builtin_key(k2, t902)));
                                     lemma_withdraw_keeps_ok(s0.pools@[k2], st.pools@[k2], wd_q(reqs, k2), wl(k2), wr(k2), is_builtin_key(k2, t902)); } }
                         assert(pools_ok(st.pools@));
                         assert(st.pools@.contains_key(pk_mel_sym()) && st.pools@.contains_key(pk_mel_erg()));
@@ -300,30 +310,39 @@ UNIT = Unit(
            loops=[Loop(0, binder="it",
                body_entry="""let ghost pb = st.pools@; let ghost cb = st.coins@.coins; let ghost i = it.index@ as int; let ghost k = *pool;
                    proof { assert(k == pools@[i]); assert(pools@.contains(k)); assert(mentions(reqs, k));
-                       assert(!done_set(pools@, i).contains(k)) by { if done_set(pools@, i).contains(k) { let j = choose|j: int| 0 <= j < i && pools@[j] == k; assert(pools@[j] == pools@[i]); } }
+                       let ghost dn = wdone_set(pools@, i, reqs, s0.pools@, t902);
+                       assert(!dn.contains(k)) by { if dn.contains(k) { let j = choose|j: int| 0 <= j < i && pools@[j] == k; assert(pools@[j] == pools@[i]); } }
                        lemma_selected_from(s0, reqs, withdraw_pred(s0), k); lemma_pool_wds_pre(txs, s0.pools@, c0, reqs, k, t902);
                        assert(pb[k] == s0.pools@[k]);
                        // coins under index 1 of this pool's requests are still absent: earlier steps only added ids of other pools' requests
                        lemma_filter_mem(reqs, for_pool(k));
                        assert forall|q: int| 0 <= q < pool_reqs(reqs, k).len() implies !cb.contains_key(cid(#[trigger] pool_reqs(reqs, k)[q], 1)) by {
                            let t = pool_reqs(reqs, k)[q]; assert(pool_reqs(reqs, k).contains(t)); let j = choose|j: int| 0 <= j < reqs.len() && reqs[j] == t;
-                           if wd_new(reqs, done_set(pools@, i), cid(t, 1)) { let j2 = choose|j2: int| 0 <= j2 < reqs.len() && done_set(pools@, i).contains(swap_key(#[trigger] reqs[j2])) && cid(t, 1) == cid(reqs[j2], 1);
+                           if wd_new(reqs, dn, cid(t, 1)) { let j2 = choose|j2: int| 0 <= j2 < reqs.len() && dn.contains(swap_key(#[trigger] reqs[j2])) && cid(t, 1) == cid(reqs[j2], 1);
                                if j != j2 { if j < j2 { assert(spec_txhash(reqs[j]) != spec_txhash(reqs[j2])); } else { assert(spec_txhash(reqs[j2]) != spec_txhash(reqs[j])); } } assert(for_pool(k)(reqs[j])); } } }""",
-               body_exit="""proof { let (l, r) = choose|l: int, r: int| #[trigger] withdrawals_result(pb, cb, pool_reqs(reqs, k), k, s0.height, st.pools@, st.coins@.coins, l, r);
-                       lemma_wds_done_step(s0.pools@, c0, s0.height, reqs, done_set(pools@, i), wl, wr, pb, cb, k, st.pools@, st.coins@.coins, l, r);
+               body_exit="""proof { let dn = wdone_set(pools@, i, reqs, s0.pools@, t902); let dn1 = wdone_set(pools@, i + 1, reqs, s0.pools@, t902);
+                       lemma_sat_sum_bounds(out_vals(pool_reqs(reqs, k), 0), pool_reqs(reqs, k).len() as int);
+                       if wd_refused(pb[k], wd_q(reqs, k), is_builtin_key(k, t902)) {
+                           assert(st.pools@ == pb && st.coins@.coins == cb);
+                           assert(dn1 =~= dn) by { assert forall|k2: PoolKey| dn1.contains(k2) <==> dn.contains(k2) by {
+                               if dn1.contains(k2) { let j = choose|j: int| 0 <= j < i + 1 && pools@[j] == k2; if j == i { assert(k2 == k); assert(!wd_settles(s0.pools@, reqs, k, t902)); } else { assert(0 <= j < i && pools@[j] == k2); } }
+                               if dn.contains(k2) { let j = choose|j: int| 0 <= j < i && pools@[j] == k2; assert(0 <= j < i + 1 && pools@[j] == k2); } } }
+                       } else {
+                       let (l, r) = choose|l: int, r: int| #[trigger] withdrawals_result(pb, cb, pool_reqs(reqs, k), k, s0.height, st.pools@, st.coins@.coins, l, r);
+                       lemma_wds_done_step(s0.pools@, c0, s0.height, reqs, dn, wl, wr, pb, cb, k, st.pools@, st.coins@.coins, l, r);
                        wl = |k2: PoolKey| if k2 == k { l } else { wl(k2) }; wr = |k2: PoolKey| if k2 == k { r } else { wr(k2) };
-                       assert(done_set(pools@, i + 1) =~= done_set(pools@, i).insert(k)) by {
-                           assert forall|k2: PoolKey| done_set(pools@, i + 1).contains(k2) <==> done_set(pools@, i).insert(k).contains(k2) by {
-                               if done_set(pools@, i + 1).contains(k2) { let j = choose|j: int| 0 <= j < i + 1 && pools@[j] == k2; if j < i { assert(done_set(pools@, i).contains(k2)); } }
-                               if done_set(pools@, i).contains(k2) { let j = choose|j: int| 0 <= j < i && pools@[j] == k2; assert(0 <= j < i + 1 && pools@[j] == k2); }
-                               if k2 == k { assert(0 <= i < i + 1 && pools@[i] == k2); } } } }""",
+                       assert(dn1 =~= dn.insert(k)) by {
+                           assert forall|k2: PoolKey| dn1.contains(k2) <==> dn.insert(k).contains(k2) by {
+                               if dn1.contains(k2) { let j = choose|j: int| 0 <= j < i + 1 && pools@[j] == k2; if j < i { assert(0 <= j < i && pools@[j] == k2); assert(dn.contains(k2)); } }
+                               if dn.contains(k2) { let j = choose|j: int| 0 <= j < i && pools@[j] == k2; assert(0 <= j < i + 1 && pools@[j] == k2); }
+                               if k2 == k { assert(0 <= i < i + 1 && pools@[i] == k2); assert(wd_settles(s0.pools@, reqs, k, t902)); } } } } }""",
                invariants=[
                    C("ctx", """refs_of(it.seq(), pools@) && withdraw_reqs@ == reqs && wd_reqs_ok(s0.pools@, c0, reqs) && c0 == s0.coins@.coins && txs == s0.transactions@ && t902 == spec_tip(s0.network, s0.height, 180000) && pools@.no_duplicates()
                          && (forall|k: PoolKey| #[trigger] pools@.contains(k) <==> mentions(reqs, k)) && state_inv(s0) && builtins_live(s0) && pools_ok(s0.pools@) && wd_env(txs, s0.pools@, c0, t902)
                          && selected(s0.transactions@, reqs, withdraw_pred(s0))""", "C15"),
                    C("frame", "pool_phase_frame(s0, st) && st.fee_pool == s0.fee_pool && st.height == s0.height && st.network == s0.network", "C15", "C17"),
                    C("inv", "st.coins.wf() && (spec_tip906(s0) ==> counts_ok(st.coins@)) && origin_ok(st.coins@.coins) && (!spec_tip906(s0) ==> st.coins@.counts == s0.coins@.counts)", "C20"),
-                   C("done", "wds_done(s0.pools@, c0, s0.height, reqs, done_set(pools@, it.index@ as int), wl, wr, st.pools@, st.coins@.coins)", "C15", "C01", "C03"),
+                   C("done", "wds_done(s0.pools@, c0, s0.height, reqs, wdone_set(pools@, it.index@ as int, reqs, s0.pools@, t902), wl, wr, st.pools@, st.coins@.coins)", "C15", "C01", "C03"),
                ])]),
         Fn(M, "dosc_inflator", mode="assume", **mm_dosc_inflator()),
         Fn(M, "process_pegging", home="C16", implicit_props=("C09", "C16", "C01"), **mm_process_pegging(),
@@ -397,8 +416,8 @@ UNIT = Unit(
                         let rq = choose|reqs: Seq<Transaction>| #[trigger] selected(s1.transactions@, reqs, swap_pred(s1)) && swap_reqs_ok(s1.pools@, s1.coins@.coins, reqs) && swaps_done(s1.pools@, s1.coins@.coins, s1.height, reqs, mentioned_set(reqs), state.pools@, state.coins@.coins);
                         lemma_swaps_markers(s1.pools@, s1.coins@.coins, s1.height, rq, mentioned_set(rq), state.pools@, state.coins@.coins); } let ghost s2 = state;"""),
                     Inject(("after_let", "state", 3), """proof { lemma_two_pools_min(state); assert(ids_new(s0.coins@.coins, state.coins@.coins));
-                        let (rq, wl, wr) = choose|reqs: Seq<Transaction>, wl: spec_fn(PoolKey) -> int, wr: spec_fn(PoolKey) -> int| #[trigger] selected(s3.transactions@, reqs, withdraw_pred(s3)) && wd_reqs_ok(s3.pools@, s3.coins@.coins, reqs) && #[trigger] wds_done(s3.pools@, s3.coins@.coins, s3.height, reqs, mentioned_set(reqs), wl, wr, state.pools@, state.coins@.coins);
-                        lemma_wds_markers(s3.pools@, s3.coins@.coins, s3.height, rq, mentioned_set(rq), wl, wr, state.pools@, state.coins@.coins);
+                        let (rq, wl, wr) = choose|reqs: Seq<Transaction>, wl: spec_fn(PoolKey) -> int, wr: spec_fn(PoolKey) -> int| #[trigger] selected(s3.transactions@, reqs, withdraw_pred(s3)) && wd_reqs_ok(s3.pools@, s3.coins@.coins, reqs) && #[trigger] wds_done(s3.pools@, s3.coins@.coins, s3.height, reqs, wd_settled_set(reqs, s3.pools@, spec_tip(s3.network, s3.height, 180000)), wl, wr, state.pools@, state.coins@.coins);
+                        lemma_wds_markers(s3.pools@, s3.coins@.coins, s3.height, rq, wd_settled_set(rq, s3.pools@, spec_tip(s3.network, s3.height, 180000)), wl, wr, state.pools@, state.coins@.coins);
                         if !deposit_legacy(s0.network, s0.height) { assert(markers_kept(s0.coins@.coins, state.coins@.coins)); } } let ghost s4 = state;"""),
                     Inject(("after_let", "state", 2), """let ghost s3 = state; proof { if !deposit_legacy(s2.network, s2.height) {
                         let (rq, mt) = choose|reqs: Seq<Transaction>, mint: spec_fn(PoolKey) -> int| #[trigger] selected(s2.transactions@, reqs, deposit_pred(s2)) && dep_reqs_ok(s2.coins@.coins, reqs) && #[trigger] deps_done(s2.pools@, s2.coins@.coins, s2.height, deposit_legacy(s2.network, s2.height), reqs, mentioned_set(reqs), mint, state.pools@, state.coins@.coins);
